@@ -18,6 +18,7 @@ Section Types.
   Record CurveStation2 := mk_CurveStation2 { CurveStation2_pt : (num * num)%type; CurveStation2_nrm : (num * num)%type }.
   (* parry's Ray in 2D (origin, direction) *)
   Record Ray := mk_Ray { Ray_origin : (num * num)%type; Ray_dir : (num * num)%type }.
+  Record SurfacePoint3 := mk_SurfacePoint3 { SurfacePoint3_point : (num * num * num)%type; SurfacePoint3_normal : (num * num * num)%type }.
   Record Segment2 := mk_Segment2 { Segment2_a : (num * num)%type; Segment2_b : (num * num)%type }.
   Record Ball := mk_Ball { Ball_radius : num }.
   Record Circle2 := mk_Circle2 { Circle2_center : (num * num)%type; Circle2_ball : Ball; Circle2_aabb : unit }.
